@@ -119,10 +119,13 @@ def from_list_post_factory(kind):
             return True
         if kind == "integer" and isinstance(lst[0], tuple):
             raise monitor.OutOfScope()
+        key = lambda z: getattr(z, "id", z)          # a variable stands for its id (what to_list hands out can be fed back in)
+
         def row(l):
+            ks = [key(y) for y in l]
             if kind == "boolean":
-                return [1 if x in l else 0 for x in context]
-            return [(l.index(x) + 1) if x in l else 0 for x in context]
+                return [1 if key(x) in ks else 0 for x in context]
+            return [(ks.index(key(x)) + 1) if key(x) in ks else 0 for x in context]
         if _nested(lst):
             if any((not isinstance(l, (list, tuple))) or len(l) == 0 or _nested(list(l)) for l in lst):
                 raise monitor.OutOfScope()
@@ -132,11 +135,12 @@ def from_list_post_factory(kind):
                 raise monitor.OutOfScope()
             exp = row(lst)
         got = numpy.asarray(result)
-        ctx.check(got.tolist() == exp, kind + ".from_list", lambda: {"lst": lst, "context": context, "got": got.tolist(), "expected": exp})
-        flat = [x for l in lst for x in l] if _nested(lst) else lst
-        if any(x in context for x in flat) and any(x not in flat for x in context):
-            ctx.nt(monitor.digest([kind, "from_list", lst, context]))
-        ctx.sample({"fn": kind + ".from_list", "lst": lst, "context": context, "result": got.tolist()}, cap=5)
+        ctx.check(got.tolist() == exp, kind + ".from_list", lambda: {"lst": repr(lst), "context": repr(context), "got": got.tolist(), "expected": exp})
+        flat = [key(x) for l in lst for x in l] if _nested(lst) else [key(x) for x in lst]
+        ckeys = [key(x) for x in context]
+        if any(x in ckeys for x in flat) and any(x not in flat for x in ckeys):
+            ctx.nt(monitor.digest([kind, "from_list", repr(lst), repr(context)]))
+        ctx.sample({"fn": kind + ".from_list", "lst": repr(lst), "context": repr(context), "result": got.tolist()}, cap=5)
         return True
     return post
 
@@ -310,6 +314,19 @@ def run_rewrap(case, ctx, rng, vs):
         ctx.call("to_linalg", P.to_linalg)
         vv = {v.id: 1 for v in P.variables[1:][:2]}
         got = ctx.call("construct", P.A.construct, vv)
+        if n >= 1 and rng.random() < 0.5:
+            # one column is re-declared afterwards (an element of P.variables is replaced: tightened bounds / renamed): A, to_linalg and what
+            # they construct are about the columns as they are declared now
+            j = rng.randrange(1, n + 1)
+            old_v = P.variables[j]
+            lo_, hi_ = old_v.bounds.as_tuple()
+            P.variables[j] = rng.choice([lambda: puan.variable(old_v.id, bounds=(lo_ + (hi_ > lo_), hi_)), lambda: puan.variable(str(old_v.id) + "'", bounds=(lo_, hi_)),
+                                         lambda: puan.variable(old_v.id, bounds=(hi_, hi_))])()
+            ctx.count("count:column-redeclared-in-place")
+            ctx.call("A", lambda: P.A)
+            ctx.call("to_linalg", P.to_linalg)
+            ctx.call("construct", P.A.construct, {})
+            ctx.call("boolean_variable_indices", lambda: P.A.boolean_variable_indices)
         return
     cls = rng.choice([pnd.boolean_ndarray, pnd.integer_ndarray, pnd.variable_ndarray])
     a = cls(numpy.array([[rng.randint(0, 1) for _ in vs] for _ in range(rng.randint(1, 2))], dtype=numpy.int64), variables=vs)
@@ -421,6 +438,16 @@ def run_case(case, ctx):
                 ctx.count("count:from_list:repeated-id")
             return out
         lst = flat() if rng.random() < 0.5 else [flat() for _ in range(rng.randint(1, 3))]
+        ctxt = list(ctxt)
+        side = rng.random()
+        asvar = lambda z: puan.variable(z, bounds=rng.choice([(0, 1), (0, 1), (-2, 3)]))
+        if side < 0.15:
+            # variables on one side, raw ids on the other (the list that to_list() hands out, fed back with the ids as context, and vice versa)
+            lst = [[asvar(z) for z in l] for l in lst] if isinstance(lst[0], list) else [asvar(z) for z in lst]
+            ctx.count("count:from_list:variables-vs-raw-ids")
+        elif side < 0.3:
+            ctxt = [asvar(z) for z in ctxt]
+            ctx.count("count:from_list:variables-vs-raw-ids")
         if kind == "ifrom":
             ctx.call("integer.from_list", pnd.integer_ndarray.from_list, lst, list(ctxt))
         else:
